@@ -24,7 +24,7 @@ INDEX = {
    {"name": "VerifH02PointOpsBTree", "common": {"max_depth": 2000}, "quick": {"bounds": {"steps": 3, "ops": 2, "keys": 2}}, "thorough": {"bounds": {"steps": 4, "ops": 3, "keys": 2}}},
  ]},
  "C03": {"package": "./roaring", "harnesses": [
-   {"name": "VerifH03Isolation", "common": {"max_depth": 3000}, "quick": {"bounds": {"array": 2, "runs": 1, "words": 1, "bases": 1, "wordmask6": 1, "runlen": 2, "derivations": 8, "mutations": 7}}},
+   {"name": "VerifH03Isolation", "common": {"max_depth": 3000}, "quick": {"bounds": {"array": 2, "runs": 1, "words": 1, "bases": 1, "wordmask6": 1, "runlen": 2, "derivations": 7, "mutations": 7}}},
  ]},
  "C04": {"package": "./roaring", "harnesses": [
    {"name": "VerifH04RoundTrip", "common": {"max_depth": 2000}, "quick": {"bounds": {"containers": 1, "array": 2, "runs": 2, "words": 1, "bases": 1, "wordmask6": 1, "keychoices": 2}}, "thorough": {"bounds": {"containers": 2, "array": 3, "runs": 3, "words": 1, "bases": 2, "wordmask6": 1, "keychoices": 2}}},
@@ -61,16 +61,22 @@ INDEX = {
    {"name": "VerifH14Range", "common": {"max_depth": 2000}, "quick": {"bounds": {"depths": 2, "cols": 1, "ops": 7}}, "thorough": {"bounds": {"depths": 3, "cols": 2, "ops": 7, "symbase": 1}}},
  ]},
  "C16": {"package": ".", "harnesses": [
-   {"name": "VerifH16Rows", "common": {"max_depth": 3000}, "quick": {"bounds": {"steps": 2, "ops": 9, "rows": 3, "colhis": 1, "caches": 1}}, "thorough": {"bounds": {"steps": 2, "ops": 9, "rows": 4, "colhis": 2, "caches": 3}}},
+   {"name": "VerifH16Rows", "common": {"max_depth": 3000}, "quick": {"bounds": {"steps": 2, "ops": 9, "rows": 2, "colhis": 1, "caches": 1}}, "thorough": {"bounds": {"steps": 2, "ops": 9, "rows": 4, "colhis": 2, "caches": 3}}},
  ]},
  "C17": {"package": ".", "harnesses": [
    {"name": "VerifH17MinReducer", "quick": {"bounds": {"partials": 3}}, "thorough": {"bounds": {"partials": 4}}},
    {"name": "VerifH17MaxReducer", "quick": {"bounds": {"partials": 3}}, "thorough": {"bounds": {"partials": 4}}},
    {"name": "VerifH17SumReducer", "quick": {"bounds": {"partials": 3}}},
  ]},
+ "C19": {"package": ".", "harnesses": [
+   {"name": "VerifH19ClearBit", "common": {"max_depth": 3000}, "quick": {"bounds": {"quanta": 10, "instants": 3}}, "thorough": {"bounds": {"quanta": 10, "instants": 5}}},
+ ]},
  "C20": {"package": ".", "harnesses": [
    {"name": "VerifH20Owners", "common": {"max_depth": 2000}, "quick": {"bounds": {"nodes": 3, "replicas": 4}}, "thorough": {"bounds": {"nodes": 4, "replicas": 5}}},
    {"name": "VerifH20OwnsShard", "common": {"max_depth": 2000}, "quick": {"bounds": {"nodes": 3, "replicas": 4}}},
+ ]},
+ "C21": {"package": ".", "harnesses": [
+   {"name": "VerifH21FragSources", "common": {"max_depth": 3000}, "quick": {"bounds": {"nodes": 1, "replicas": 2, "shards": 2}}, "thorough": {"bounds": {"nodes": 2, "replicas": 2, "shards": 3}}},
  ]},
  "C23": {"package": ".", "harnesses": [
    {"name": "VerifH23Gate", "common": {"max_depth": 3000}, "quick": {"bounds": {}}},
